@@ -1647,3 +1647,169 @@ B('c09-benign-push-back-consistent', 'C09', DF,
             del args[-arg_count:]
 
         args.append(result)''')
+
+# =========================================================================== C01
+S('c01-byteorder-flipped-pack-only', 'C01', F,
+  '''                self.byte_count,
+                byteorder='big' if self.is_bigendian else 'little',''',
+  '''                self.byte_count,
+                byteorder='little' if self.is_bigendian else 'big',''', 'R1-int-codec')
+S('c01-data-pack-forgets-delimiter', 'C01', F,
+  '''        r = getattr(pkt, self.field_name) + self.delimiter_to_be_included''', '''        r = getattr(pkt, self.field_name)''', 'C06-pack-reemits')
+S('c01-include-arith-off', 'C01', F,
+  '''        if self.include_delimiter:
+            count += len(until_marker)
+        else:''',
+  '''        if self.include_delimiter:
+            count += len(until_marker) - 1
+        else:''', 'C06-include-consume')
+S('c01-optional-pack-emits-for-none', 'C01', SF,
+  '''        if obj is not None:
+            setattr(pkt, opt_elem_field_name, obj)
+            return self.prototype_field.pack(pkt, fragments, **k)
+
+        else:
+            return fragments''',
+  '''        if obj is None:
+            obj = self.prototype_field.default
+        setattr(pkt, opt_elem_field_name, obj)
+        return self.prototype_field.pack(pkt, fragments, **k)''', 'C08-optional')
+S('c01-seq-pack-pad-changed', 'C01', SF,
+  '''            fragments.current_offset += (
+                aligned_to - (fragments.current_offset % aligned_to)
+            ) % aligned_to''',
+  '''            fragments.current_offset += (
+                aligned_to - (fragments.current_offset % aligned_to)
+            )''', 'R8-element-pad')
+S('c01-fill-default-changed', 'C01', FR, "def __init__(self, fill=b'.'):", "def __init__(self, fill=b' '):", 'R8-fill-flow')
+S('c01-pack-custom-fill', 'C01', PK, '''        fragments = Fragments()
+        try:''', '''        fragments = Fragments(fill=b'\\x00')
+        try:''', 'R8-fill-flow')
+S('c01-swallow-collision', 'C01', F,
+  '''        r = getattr(pkt, self.field_name) + self.delimiter_to_be_included
+        fragments.append(r)
+        return fragments''',
+  '''        r = getattr(pkt, self.field_name) + self.delimiter_to_be_included
+        try:
+            fragments.append(r)
+        except Exception:
+            pass
+        return fragments''', 'R7-overlap-surfaces')
+S('c01-em-consumes', 'C01', F,
+  '''    def unpack(self, pkt, raw, offset=0, **k):
+        return offset
+
+    def pack(self, pkt, fragments, **k):
+        fragments.append(b"")
+        return fragments''',
+  '''    def unpack(self, pkt, raw, offset=0, **k):
+        return offset + (1 if raw[offset:offset + 1] == b'\\x00' else 0)
+
+    def pack(self, pkt, fragments, **k):
+        fragments.append(b"")
+        return fragments''', 'R1-empty-pair')
+S('c01-generic-loop-skips-last', 'C01', PK,
+  '''            for name, f, pack, _ in self.get_fields():
+                pack(pkt=self, fragments=fragments, **k)''',
+  '''            for name, f, pack, _ in self.get_fields()[:64]:
+                pack(pkt=self, fragments=fragments, **k)''', 'R2-driver-symmetry')
+S('c01-bits-first-member-packs', 'C01', F,
+  '''        if self.iam_last:
+            return self.I.pack(pkt, fragments=fragments, **k)
+        else:
+            return fragments''',
+  '''        if self.iam_first:
+            return self.I.pack(pkt, fragments=fragments, **k)
+        else:
+            return fragments''', 'R8-confinement')
+S('c01-ref-embed-pack-not-noop', 'C01', F,
+  '''            self.pack = self.pack_noop
+            self.unpack = self.unpack_noop''',
+  '''            self.unpack = self.unpack_noop''', 'R1-pair-installed')
+S('c01-tobytes-no-fill', 'C01', FR, '''            result.append(self.fill * (offset - begin))''', '''            result.append(b'' * (offset - begin))''', 'R8-tobytes')
+B('c01-benign-pack-rename', 'C01', F,
+  '''        r = getattr(pkt, self.field_name) + self.delimiter_to_be_included
+        fragments.append(r)
+        return fragments''',
+  '''        value = getattr(pkt, self.field_name)
+        fragments.append(value + self.delimiter_to_be_included)
+        return fragments''')
+
+# =========================================================================== C02
+S('c02-init-ignores-keyword', 'C02', F,
+  '''        setattr(
+            packet, self.field_name,
+            defaults.get(self.field_name, self.default)
+        )
+
+    def unpack(self, pkt, raw, offset=0, **k):
+        raise NotImplementedError(
+            "This method should be implemented during the 'compilation' phase."
+        )
+
+    def pack(self, pkt, fragments, **k):
+        r = getattr''',
+  '''        setattr(
+            packet, self.field_name,
+            self.default
+        )
+
+    def unpack(self, pkt, raw, offset=0, **k):
+        raise NotImplementedError(
+            "This method should be implemented during the 'compilation' phase."
+        )
+
+    def pack(self, pkt, fragments, **k):
+        r = getattr''', 'C19-init-stores')
+S('c02-pack-inserts-at-zero', 'C02', F,
+  '''        raw = self.struct_obj.pack(integer)
+        fragments.append(raw)''',
+  '''        raw = self.struct_obj.pack(integer)
+        fragments.insert(fragments.current_offset, raw)''', 'C02-in-order-concatenation')
+S('c02-assert-consistency-true-in-handler', 'C02', PK,
+  '''        except:
+            if dont_raise:
+                return False
+            raise''',
+  '''        except:
+            if dont_raise:
+                return True
+            raise''', 'C02-assert-consistency')
+S('c02-assert-consistency-silent', 'C02', PK,
+  '''            self.__class__.unpack(self.pack())
+            return True''',
+  '''            self.__class__.unpack(self.pack(), silent=True)
+            return True''', 'C02-assert-consistency')
+S('c02-pack-rewinds-cursor', 'C02', F,
+  '''    def pack(self, pkt, fragments, **k):
+        fragments.append(b"")
+        return fragments''',
+  '''    def pack(self, pkt, fragments, **k):
+        fragments.append(b"")
+        fragments.current_offset = max(fragments.current_offset - 1, 0)
+        return fragments''', 'C02-in-order-concatenation')
+S('c02-packet-pack-other-buffer', 'C02', PK,
+  '''            fragments = self.pack_impl(fragments, root=self)
+            return fragments.tobytes()''',
+  '''            self.pack_impl(Fragments(), root=self)
+            return fragments.tobytes()''', 'R8-fill-flow')
+S('c02-append-not-at-cursor', 'C02', FR,
+  '''    def append(self, string):
+        self.insert(self.current_offset, string)''',
+  '''    def append(self, string):
+        self.insert(len(self.tobytes()), string)''', 'C02-in-order-concatenation')
+B('c02-benign-assert-consistency-shape', 'C02', PK,
+  '''        try:
+            self.__class__.unpack(self.pack())
+            return True
+        except:
+            if dont_raise:
+                return False
+            raise''',
+  '''        try:
+            type(self).unpack(self.pack())
+        except Exception:
+            if dont_raise:
+                return False
+            raise
+        return True''')
